@@ -195,6 +195,72 @@ def run_own_receipt_case(case, out):
     return out
 
 
+def run_ping_reply_case(case, out):
+    """the answer to a ping - the application's own or the one the library's keep-alive sends (announced to the outstanding-ping
+    queue first, as the ping thread does) - is an incoming stanza like any other: exactly one result entity at the application
+    side, with the stanza's fields"""
+    from yowsup.layers.protocol_iq import YowIqProtocolLayer
+    from yowsup.layers.protocol_iq.protocolentities import PingIqProtocolEntity, IqProtocolEntity, ErrorIqProtocolEntity
+    configs = case.get("configs") or ALL_CONFIGS
+    out.label("in", "ping_reply:" + case["who"], "ping_reply:" + case["reply"])
+    evals = 0
+    for cfg in configs:
+        flags, axolotl = cfg[:4], bool(cfg[4])
+        single = dict(case, configs=[cfg])
+        rig = ProtoRig(flags, axolotl)
+        try:
+            iql = None
+            for i in range(1, 6):
+                try:
+                    layer = rig.stack.getLayer(i)
+                except IndexError:
+                    break
+                for sub_ in getattr(layer, "sublayers", []) or []:
+                    if isinstance(sub_, YowIqProtocolLayer):
+                        iql = sub_
+            pings = []
+            try:
+                for k in range(case.get("n", 1)):
+                    ping = PingIqProtocolEntity()
+                    pings.append(ping)
+                    if case["who"] == "keepalive":
+                        if k == 0:
+                            iql.waitPong(ping.getId())
+                        iql.sendIq(ping)
+                    else:
+                        rig.send(ping)
+            except Exception as e:
+                out.fail("down", "down:ping:raises:%s" % type(e).__name__, {"error": repr(e)[:300], "config": cfg}, case=single)
+                return out
+            for ping in pings:
+                attrs = {"id": ping.getId(), "type": case["reply"], "from": "s.whatsapp.net"}
+                kids = None
+                if case["reply"] == "error":
+                    kids = [("error", {"code": str(case.get("code", 500)), "text": "internal-server-error"}, None)]
+                elif case.get("xmlns"):
+                    attrs["xmlns"] = "w:p"
+                before = len(rig.top.got)
+                try:
+                    rig.inject(T.to_node(("iq", attrs, kids)))
+                except Exception as e:
+                    out.fail("up", "up:ping_reply:raises:%s" % type(e).__name__, {"error": repr(e)[:300], "config": cfg, "who": case["who"]}, case=single)
+                    return out
+                got = rig.top.got[before:]
+                # (the result entity the iq layer builds is a plain IqProtocolEntity of type result: the fields are what counts)
+                ok = len(got) == 1 and isinstance(got[0], IqProtocolEntity) and got[0].getId() == ping.getId() and got[0].getType() == case["reply"] \
+                    and (case["reply"] != "error" or isinstance(got[0], ErrorIqProtocolEntity) and str(got[0].code) == str(case.get("code", 500)))
+                if not ok:
+                    out.fail("up", "up:ping_reply:%s" % ("not_delivered" if not got else "delivered_%d_times" % len(got) if len(got) > 1 else "wrong_entity"),
+                             {"config": cfg, "who": case["who"], "got": [type(g).__name__ for g in got]}, case=single)
+                    return out
+        finally:
+            rig.close()
+        evals += 1
+    out.evals = max(1, evals)
+    out.nontrivial_n = evals
+    return out
+
+
 def module_on(rec, cfg):
     if rec.module in FLAG_NAMES:
         return cfg[FLAG_NAMES.index(rec.module)]
@@ -233,6 +299,8 @@ def _run_case(case):
         return run_sender_key_case(case, out)
     if case["sub"] == "in_own_receipt":
         return run_own_receipt_case(case, out)
+    if case["sub"] == "in_ping_reply":
+        return run_ping_reply_case(case, out)
     rec = E.by_name(case["name"])
     cls = rec.load()
     configs = case.get("configs") or ALL_CONFIGS
@@ -344,9 +412,14 @@ def plan(tier):
         strategies.append(("in_own_receipt:" + ("group" if group else "direct"),
                            st.builds(lambda body, rs, _g=group: {"sub": "in_own_receipt", "group": _g, "body": body, "receipts": rs},
                                      S.TEXT.strategy, st.lists(receipt, min_size=1, max_size=3)), n))
+    strategies.append(("in_ping_reply",
+                       st.builds(lambda who, reply, n, x, code: {"sub": "in_ping_reply", "who": who, "reply": reply, "n": n, "xmlns": x, "code": code},
+                                 st.sampled_from(["keepalive", "application"]), st.sampled_from(["result", "result", "error"]), st.integers(1, 3),
+                                 st.booleans(), st.integers(400, 599)), n))
     return {
         "shards": 16,
-        "enumerations": [],
+        "enumerations": [("ping_replies", lambda: iter([{"sub": "in_ping_reply", "who": w, "reply": r, "n": 1} for w in ("keepalive", "application")
+                                                        for r in ("result", "error")]))],
         "strategies": strategies,
         "shrink": "hypothesis",
         "budget_s": 200 if quick else 1800,
